@@ -25,6 +25,11 @@ def reference(k, seed_extra=None):
     return worlds.catalogue_ref(k, FAMILIES[k], 66 + (k * 2) % 7, ref_id=(1, 24, 3, 117, 2, 8, 5, 40)[k], decimals=k % 2 == 1)
 
 
+# unlabelled stretch behind the last label: ContigLength = last label + 1 + trailing; -1.0 puts the last label exactly AT ContigLength,
+# -0.6 less than one bp before a fractional ContigLength
+TRAILING = (0.0, 2500.0, -1.0, 0.0, 2500.0, -0.6)
+
+
 def check_world(ref, plants, mode, acc, key=None):
     """plants: [(start, length, reverse, offset, trailing)] (<= 4)"""
     queries, truths = [], {}
@@ -163,11 +168,11 @@ class Windows(core.Layer):
             for s in range(4, (n - 4 - l + 1) if max_start is None else min(max_start + 1, n - 4 - l + 1)):
                 for rev in (False, True):
                     for off in (offsets if product else (offsets[(s + l + rev) % len(offsets)],)):
-                        plants.append((s, l, rev, off, (0.0, 2500.0)[(s + l) % 2]))
+                        plants.append((s, l, rev, off, TRAILING[(s + l + 2 * rev) % len(TRAILING)]))
         self.groups = [plants[i:i + 4] for i in range(0, len(plants), 4)]
         self.all_modes = all_modes
         self.bounds = dict(reference_id=ref[0], labels=n, window_lengths=list(lengths), starts='every start with >=4 labels on both sides',
-                           strands=['+', '-'], offsets=list(offsets), offsets_crossed=product, trailing=[0, 2500],
+                           strands=['+', '-'], offsets=list(offsets), offsets_crossed=product, trailing=list(TRAILING),
                            modes='all four on every group' if all_modes else 'best on every group, the other three on every 4th group')
         self.rule = '%d planted windows in %d runs' % (len(plants), len(self.groups))
 
